@@ -187,6 +187,12 @@ class ResolverMixin:  # pylint: disable=too-few-public-methods
                                 "{3!A} without override.",
                                 type_str, obj_name, new_class.classname,
                                 superclass.classname))
+                # A parameter of an overriding method inherits the qualifiers
+                # of the same-named parameter of the overridden method
+                self._resolve_qualifiers(
+                    new_obj.qualifiers, superclass_objects[obj_name].qualifiers,
+                    new_class, superclass, obj_name, type_str,
+                    qualifier_store, propagate=True)
                 continue
 
             # process object override
@@ -326,6 +332,13 @@ class ResolverMixin:  # pylint: disable=too-few-public-methods
                                  new_obj.name, type_str,
                                  qualifier_store,
                                  propagate=propagated)
+
+        # Initialize the qualifiers of the parameters of a new method
+        if isinstance(new_obj, CIMMethod) and not propagated:
+            for param in new_obj.parameters.values():
+                self._resolve_qualifiers(param.qualifiers, None, new_class,
+                                         superclass, param.name, 'Parameter',
+                                         qualifier_store, propagate=False)
 
     def _resolve_qualifiers(self, new_quals, inherited_quals, new_class,
                             super_class, obj_name, obj_type, qualifier_store,
